@@ -40,6 +40,25 @@ def run(ctx):
             ext = runlib.default_extents(spec, rng, 1, 9)
             data, scal = runlib.gen_inputs(spec, ext, rng, density=rng.choice([1.0, 0.6, 0.3]))
             cases.append(execlib.Case(spec, text, ext, data, scal, meta={"syms": syms, "mapping": mp}, extra_ints=syms))
+    # index-math (convolution-like) Einsums with the output rank shape-partitioned and the input rank following it
+    from props import c04
+    for i in range(n // 4):
+        es = specgen.gen_affine_einsum(rng)
+        mp, kind, syms = specgen.affine_mapping(rng, es, part_p=1.0)
+        y = specgen.yaml_of(es["decl"], [es["expr"]], mp)
+        try:
+            spec = runlib.Spec(y)
+            text = spec.compile()
+        except (ValueError, KeyError) as e:
+            k = type(e).__name__ + ": " + str(e)[:70]
+            stats["compile_errors"][k] = stats["compile_errors"].get(k, 0) + 1
+            continue
+        stats["affine"] = stats.get("affine", 0) + 1
+        for j in range(2 if ctx.quick() else 3):
+            ext = specgen.affine_extents(rng, es)
+            data, scal = runlib.gen_inputs(spec, ext, rng, density=rng.choice([1.0, 0.8, 0.5]))
+            cases.append(execlib.Case(spec, text, ext, data, scal, extra_ints=syms,
+                                      meta={"affine": True, "flags": c04.flags_of(text, mp, es["out"]), "syms": syms, "mapping": mp}))
     execlib.evaluate(cases, "c02")
     bad = 0
     for c in cases:
@@ -48,6 +67,10 @@ def run(ctx):
         if r["status"] == "RAN" and r["out"] == "OK":
             continue
         bad += 1
+        if c.meta.get("affine"):
+            key, what = c04.key_of(c)     # the known defects of index math under partitioning (F4, F5, F11, F12) are keyed as in C04
+            ctx.violation(key, "partitioned " + what, c.replay())
+            continue
         if r["status"] == "RAN":
             key = {"kind": "wrong-result", "take_in_sum_selected_lacks_rank": specgen.take_selected_lacks_rank(st)}
             what = "partitioned program computes a wrong output: %s" % r["out"][:300]
@@ -62,7 +85,7 @@ def run(ctx):
         "programs": distinct, "executions": len(cases), "disagreements_checked": bad, "evaluations": len(cases),
         "distinct_nontrivial": distinct, "population": stats,
         "rule": "random Einsums x 1-2 partitioned ranks x stacks of 1-3 uniform_shape/nway_shape (literal or symbolic, sizes 1-7) x any loop order over "
-                "the levels (30% well-ordered) x random rank orders; 2-3 inputs each with extents 1-9 (smaller than, equal to, not divisible by the sizes)",
+                "the levels (30% well-ordered) x random rank orders; plus (a quarter as many) index-math Einsums O[q] = I[a*q+b*s]*F[s](*G) with Q shape-partitioned, W following; 2-3 inputs each with extents 1-9 (smaller than, equal to, not divisible by the sizes)",
         "samples": [{"yaml": cases[i].spec.yaml, "extents": cases[i].extents, "syms": cases[i].extra_ints, "result": cases[i].raw} for i in (0, len(cases) // 2)],
         "trusted_base": ["Coq 8.16.1 kernel + VM", "Model/Rt.v splitUniform/mergeRanks/swizzleRanks model", "Model/Interp.v", "tools/py2coq.py", "Model/Einsum.v"],
     })
